@@ -1447,7 +1447,12 @@ const char* rtosc_skip_next_printed_arg(const char* src, int* skipped,
                 {
                     const char* next_ellipsis_from_llhssrc =
                             strstr(llhssrc, "...");
-                    if(next_ellipsis_from_llhssrc < ellipsis)
+                    if(*llhssrc == '[')
+                    {
+                        // an array is no left neighbour (and an ellipsis
+                        // inside of it does not belong to us)
+                    }
+                    else if(next_ellipsis_from_llhssrc < ellipsis)
                     {
                         llhssrc = next_ellipsis_from_llhssrc + 2;
                         while(isspace(*++llhssrc)) ;
